@@ -1,4 +1,224 @@
+/-
+  C07 — each valid RS is answered exactly once, to the right destination, in time.
+  Theorems over every request history of any length, any jitter draws.
+-/
+import Corerad.Model.Advertiser
 import Corerad.Spec.C07
+
 namespace Corerad.Props.C07
-theorem placeholder : True := trivial
+
+open Corerad Corerad.Model
+
+/-- MAX_RA_DELAY_TIME as found in the source -/
+theorem gen_constants : Gen.Advertise.maxRADelay = 500 * ms := by decide
+
+/-- the unicast requests of a history paired with their jitter draws, in arrival order -/
+def ucExpected : List (Time × Req) → List Int → List (Time × Nat × Int)
+  | [], _ => []
+  | (_, .mc) :: r, ds => ucExpected r ds
+  | (t, .uc h) :: r, ds => (t, h, ds.headD 0) :: ucExpected r ds.tail
+
+/-- **Exactly once, to the right destination**: the unicast transmissions the scheduler makes
+    are, in order, one per unicast request — to that request's source, due at its arrival
+    instant plus its own jitter draw.  Nothing is lost, nothing is answered twice, whatever
+    multicast traffic is interleaved and whatever mode the interface is in. -/
+theorem unicast_exactly_once (minDelay : Dur) (uo : Bool) :
+    ∀ (reqs : List (Time × Req)) (s : SchedState) (draws : List Int),
+      ucSends (schedule minDelay uo s reqs draws) = (ucExpected reqs draws).map fun x => (x.1 + x.2.2, x.2.1)
+  | [], _, _ => rfl
+  | (t, .uc h) :: rest, s, draws => by
+    have ih := unicast_exactly_once minDelay uo rest s draws.tail
+    simp only [schedule, ucSends, ucExpected, List.filter_cons, List.map_cons] at ih ⊢
+    simpa using ih
+  | (t, .mc) :: rest, s, draws => by
+    simp only [schedule, schedStep, ucExpected]
+    by_cases hu : uo = true
+    · simp only [hu, if_true]
+      exact unicast_exactly_once minDelay true rest s draws
+    · have hu' : uo = false := by simpa using hu
+      subst hu'
+      simp only [Bool.false_eq_true, if_false]
+      by_cases hp : s.next > t
+      · simp only [hp, if_true]
+        exact unicast_exactly_once minDelay false rest s draws
+      · simp only [hp, if_false]
+        have ih := unicast_exactly_once minDelay false rest
+          { next := if s.next + minDelay < t then t else s.next + minDelay } draws
+        simpa [ucSends] using ih
+
+/-- one answer per solicitation: as many unicast transmissions as unicast requests -/
+theorem unicast_count (minDelay : Dur) (uo : Bool) (reqs : List (Time × Req)) (s : SchedState) (draws : List Int) :
+    (ucSends (schedule minDelay uo s reqs draws)).length =
+      (reqs.filter fun r => match r.2 with | .uc _ => true | .mc => false).length := by
+  rw [unicast_exactly_once, List.length_map]
+  induction reqs generalizing draws with
+  | nil => rfl
+  | cons r rest ih =>
+    obtain ⟨t, q⟩ := r
+    cases q with
+    | mc => simpa [ucExpected] using ih draws
+    | uc h => simpa [ucExpected] using ih draws.tail
+
+/-- **In time**: when every draw is in `[0, MAX_RA_DELAY_TIME)` (what `Int63n` returns) and
+    there is a draw for every request, each answer is due in `[t, t + 500 ms)`. -/
+theorem delay_in_window :
+    ∀ (reqs : List (Time × Req)) (draws : List Int),
+      (∀ d ∈ draws, 0 ≤ d ∧ d < Gen.Advertise.maxRADelay) →
+      (reqs.filter fun r => match r.2 with | .uc _ => true | .mc => false).length ≤ draws.length →
+      ∀ x ∈ ucExpected reqs draws, x.1 ≤ x.1 + x.2.2 ∧ x.1 + x.2.2 < x.1 + 500 * ms
+  | [], _, _, _, x, hx => by simp [ucExpected] at hx
+  | (_, .mc) :: rest, draws, hd, hl, x, hx => by
+    exact delay_in_window rest draws hd (by simpa using hl) x (by simpa [ucExpected] using hx)
+  | (t, .uc h) :: rest, draws, hd, hl, x, hx => by
+    cases draws with
+    | nil => simp at hl
+    | cons d ds =>
+      simp only [ucExpected, List.headD_cons, List.tail_cons, List.mem_cons] at hx
+      rcases hx with rfl | hx
+      · have := hd d List.mem_cons_self
+        rw [gen_constants] at this
+        simp only
+        omega
+      · exact delay_in_window rest ds (fun d' hd' => hd d' (List.mem_cons_of_mem _ hd'))
+          (by simp at hl; omega) x hx
+
+/-- A solicitation from the unspecified address asks for an all-nodes multicast RA, one from a
+    specified address for a unicast RA to that address; nothing else asks for anything. -/
+theorem request_destination (e : AdvEvent) :
+    requestOf e =
+      if e.hop = 255 ∧ e.kind = 0 then some (e.t, if e.host = 0 then Req.mc else Req.uc e.host) else none := by
+  unfold requestOf classify
+  by_cases hh : e.hop = 255
+  · simp only [hh, ne_eq, not_true_eq_false, if_false, true_and]
+    match hk : e.kind with
+    | 0 => simp
+    | 1 => simp
+    | n+2 => simp
+  · simp [hh]
+
+/-- An interface in unicast-only mode never transmits to a multicast destination. -/
+theorem unicast_only_no_multicast (minDelay : Dur) :
+    ∀ (reqs : List (Time × Req)) (s : SchedState) (draws : List Int),
+      mcSends (schedule minDelay true s reqs draws) = []
+  | [], _, _ => rfl
+  | (t, .uc h) :: rest, s, draws => by
+    have ih := unicast_only_no_multicast minDelay rest s draws.tail
+    simpa [schedule, mcSends] using ih
+  | (t, .mc) :: rest, s, draws => by
+    simp only [schedule, schedStep, if_true]
+    exact unicast_only_no_multicast minDelay rest s draws
+
+/-! ### counters -/
+
+/-- the counter updates `receiveRetry` + `handle` make for one message: (received by type,
+    invalid by type) -/
+def countStep (c : List Nat × List Nat) (e : AdvEvent) : List Nat × List Nat :=
+  let bump := fun (l : List Nat) => l.mapIdx fun i n => if i = e.kind then n + 1 else n
+  match classify e with
+  | .invalidHop => (c.1, bump c.2)
+  | .solicit | .advert => (bump c.1, c.2)
+  | .otherType => (bump c.1, bump c.2)
+
+private theorem classify_spec (e : AdvEvent) :
+    (classify e = .invalidHop ↔ e.hop ≠ 255) ∧
+    (classify e = .solicit ↔ e.hop = 255 ∧ e.kind = 0) ∧
+    (classify e = .advert ↔ e.hop = 255 ∧ e.kind = 1) ∧
+    (classify e = .otherType ↔ e.hop = 255 ∧ e.kind ≥ 2) := by
+  unfold classify
+  by_cases hh : e.hop = 255
+  · simp only [hh, ne_eq, not_true_eq_false, if_false, true_and]
+    match hk : e.kind with
+    | 0 => simp
+    | 1 => simp
+    | n+2 => simp
+  · simp [hh]
+
+/-- **received-by-type = validated messages delivered to the handler; invalid = messages that
+    failed validation**, for every message sequence -/
+theorem counters_exact (evs : List AdvEvent) (k : Nat) (hk : k < 4) :
+    let c := evs.foldl countStep ([0, 0, 0, 0], [0, 0, 0, 0])
+    c.1[k]! = countKind evs (fun e => e.hop == 255) k ∧
+    c.2[k]! = countKind evs (fun e => e.hop != 255 || decide (e.kind ≥ 2)) k := by
+  suffices h : ∀ (a b : List Nat), a.length = 4 → b.length = 4 →
+      ((evs.foldl countStep (a, b)).1[k]! = a[k]! + countKind evs (fun e => e.hop == 255) k ∧
+       (evs.foldl countStep (a, b)).2[k]! = b[k]! + countKind evs (fun e => e.hop != 255 || decide (e.kind ≥ 2)) k) by
+    have := h [0, 0, 0, 0] [0, 0, 0, 0] rfl rfl
+    have h0 : ([0, 0, 0, 0] : List Nat)[k]! = 0 := by
+      match k, hk with
+      | 0, _ => rfl | 1, _ => rfl | 2, _ => rfl | 3, _ => rfl
+    simpa [h0] using this
+  induction evs with
+  | nil => intro a b _ _; simp [countKind]
+  | cons e rest ih =>
+    intro a b ha hb
+    simp only [List.foldl_cons]
+    have bumpLen : ∀ (l : List Nat), (l.mapIdx fun i n => if i = e.kind then n + 1 else n).length = l.length := by
+      intro l; simp
+    have bumpGet : ∀ (l : List Nat), l.length = 4 →
+        (l.mapIdx fun i n => if i = e.kind then n + 1 else n)[k]! = l[k]! + (if k = e.kind then 1 else 0) := by
+      intro l hl
+      have hkl : k < l.length := by omega
+      simp only [getElem!_pos, List.length_mapIdx, hkl, List.getElem_mapIdx]
+      split <;> simp
+    cases hc : classify e with
+    | invalidHop =>
+      have hh : e.hop ≠ 255 := (classify_spec e).1.mp hc
+      have hs : countStep (a, b) e = (a, b.mapIdx fun i n => if i = e.kind then n + 1 else n) := by
+        simp only [countStep, hc]
+      rw [hs]
+      obtain ⟨i1, i2⟩ := ih a _ ha (by rw [bumpLen]; exact hb)
+      rw [i1, i2, bumpGet b hb]
+      simp only [countKind, List.filter_cons]
+      by_cases hke : k = e.kind
+      · subst hke; simp [hh]; omega
+      · have : (e.kind == k) = false := by simp [Ne.symm hke]
+        simp [hke, this]
+    | solicit =>
+      have hh : e.hop = 255 ∧ e.kind = 0 := (classify_spec e).2.1.mp hc
+      have hs : countStep (a, b) e = (a.mapIdx (fun i n => if i = e.kind then n + 1 else n), b) := by
+        simp only [countStep, hc]
+      rw [hs]
+      obtain ⟨i1, i2⟩ := ih _ b (by rw [bumpLen]; exact ha) hb
+      rw [i1, i2, bumpGet a ha]
+      simp only [countKind, List.filter_cons]
+      by_cases hke : k = e.kind
+      · subst hke; simp [hh.1, hh.2]; omega
+      · have : (e.kind == k) = false := by simp [Ne.symm hke]
+        simp [hke, this]
+    | advert =>
+      have hh : e.hop = 255 ∧ e.kind = 1 := (classify_spec e).2.2.1.mp hc
+      have hs : countStep (a, b) e = (a.mapIdx (fun i n => if i = e.kind then n + 1 else n), b) := by
+        simp only [countStep, hc]
+      rw [hs]
+      obtain ⟨i1, i2⟩ := ih _ b (by rw [bumpLen]; exact ha) hb
+      rw [i1, i2, bumpGet a ha]
+      simp only [countKind, List.filter_cons]
+      by_cases hke : k = e.kind
+      · subst hke; simp [hh.1, hh.2]; omega
+      · have : (e.kind == k) = false := by simp [Ne.symm hke]
+        simp [hke, this]
+    | otherType =>
+      have hh : e.hop = 255 ∧ e.kind ≥ 2 := (classify_spec e).2.2.2.mp hc
+      have hs : countStep (a, b) e = (a.mapIdx (fun i n => if i = e.kind then n + 1 else n),
+          b.mapIdx fun i n => if i = e.kind then n + 1 else n) := by
+        simp only [countStep, hc]
+      rw [hs]
+      obtain ⟨i1, i2⟩ := ih _ _ (by rw [bumpLen]; exact ha) (by rw [bumpLen]; exact hb)
+      rw [i1, i2, bumpGet a ha, bumpGet b hb]
+      simp only [countKind, List.filter_cons]
+      by_cases hke : k = e.kind
+      · subst hke; simp [hh.1, hh.2]; omega
+      · have : (e.kind == k) = false := by simp [Ne.symm hke]
+        simp [hke, this]
+
+/-- Non-vacuity: two solicitations from one host 100 ms apart and one from `::` are answered by
+    two unicast RAs (one each) and one multicast RA. -/
+example :
+    let reqs := [(1000 * ms, Req.uc 1), (1100 * ms, Req.uc 1), (1200 * ms, Req.mc)]
+    ucSends (schedule (3 * second) false { next := 0 } reqs [400 * ms, 10 * ms]) = [(1400 * ms, 1), (1110 * ms, 1)] ∧
+    mcSends (schedule (3 * second) false { next := 0 } reqs [400 * ms, 10 * ms]) = [3 * second] ∧
+    Spec.C07.unicastExactlyOnce (10 * second) [(1000 * ms, 1), (1100 * ms, 1)] [(1110 * ms, 1), (1400 * ms, 1)] = true ∧
+    Spec.C07.unicastExactlyOnce (10 * second) [(1000 * ms, 1), (1100 * ms, 1)] [(1110 * ms, 1)] = false := by
+  decide
+
 end Corerad.Props.C07
